@@ -306,5 +306,10 @@ def run(ctx):
     sequential_bfs(ctx, 7 if ctx.tier == "quick" else 10)
     equality_law(ctx)
     q = ctx.tier == "quick"
-    jobs = [(h, (1 if q else 2) if len(h.producers) >= 3 else (2 if q else 3)) for h in hs]
+    def bound(h):
+        nput = sum(len(p) for p in h.producers)
+        if q:
+            return 1 if len(h.producers) >= 3 else 2
+        return 3 if (len(h.producers) <= 2 and nput <= 3) else 2
+    jobs = [(h, bound(h)) for h in hs]
     ctx.explore_many(jobs, cap=3_000_000 if q else 60_000_000)
